@@ -40,6 +40,15 @@ CHECKS = {
  "C07": dict(cat="fault_enumeration", tech="goroutine-census wait-for (dead-state) oracle for completion, leak census after DISCONNECTED, wire transcript and tracker/Config().Me checks of every next connection; curated + PRNG fault scenarios; race detector",
    text="Teardown is driven with inbound backlogs up to 300 lines, outbound backlogs up to 200 lines from handlers or user goroutines against reading/non-reading/bursty servers, handlers idle, gated or blocked in a send, all causes and pairs, 1..5 reconnect cycles from inside the DISCONNECTED handler or another goroutine, tracking on/off. 'Bounded time' is restated as reaching completion without further input; a stuck teardown is a violation only with a proof (two identical all-blocked censuses, no library timer pending). Held on the scenarios and schedules explored.",
    note="Trusted: the dead-state argument (in-memory transport, no external input, harness goroutines never park on timers); flood control off in these scenarios.", ref="§3.5, §4 C07"),
+ "C10": dict(cat="exploration", tech="online reference-model monitor (Hybrid penalty recurrence in interval arithmetic) over write timestamps in virtual time (testing/synctest bubble, go1.26.8, race detector)",
+   text="PRNG sequences of line lengths (boundary values favoured) and idle gaps (0 .. 10 min) from a fresh client, Flood toggled while the sender is idle; every write timestamp must fall where the recurrence allows (held for its own charge exactly when the penalty exceeds 10 s, never delayed with Flood set), and the stated window bound is re-checked on every run of consecutive lines. The virtual clock removes scheduling jitter, so the inequality becomes an equality against the model. Held on the sequences explored.",
+   note="Trusted: testing/synctest's fake clock; go1.26.8 instead of the repository's toolchain; the transport's Write timestamp is taken on the client's own send goroutine.", ref="§3.6, §4 C10"),
+ "C17": dict(cat="exploration", tech="reactive scripted server holding the ground-truth nick; Me()/Config().Me sampled at sync markers and inside handlers; wire oracle for collision answers; exhaustive short scripts + PRNG; exhaustive DefaultNewNick",
+   text="All scripts over {collisions before the welcome, welcome same/different, client change confirmed / refused once / refused twice, forced change, other users' changes} up to the stated length are played for three tracking modes and four generators (incl. identity), longer ones by PRNG; Me().Nick must equal the server's nick at every marker (also while a refused change is pending), nothing may be nil, every 433 must be answered with generator(refused). Exhaustive for short scripts, sampling beyond.",
+   note="Trusted: the reactive server answers every NICK the client really sends, so sessions are protocol-conformant by construction; Config().Me is read before anything calls Me().", ref="§4 C17"),
+ "C18": dict(cat="exploration", tech="dial-address and wire-transcript oracles over the configuration product; PONG token oracle under segmentation; client-ping instants in virtual time (synctest)",
+   text="The address handed to the registered proxy dialer is checked for 12 server spellings x SSL x dialer kinds; the first wire lines for the nick/ident/name/password/negotiation/tracking product over three successive connects of the same client; PONG tokens for a hostile token pool interleaved with other traffic; client PING instants for seven PingFreq values over virtual spans up to an hour. The configuration grids are enumerated completely; token streams are sampled.",
+   note="Trusted: with SSL the dial is observed and refused (no TLS handshake); synctest clock for the ping half.", ref="§4 C18"),
 }
 
 NOT_BUILT = "check not built yet in this round (planned, see DESIGN.md §4)"
